@@ -42,3 +42,22 @@ package core
 //@   ensures[C20] with_drop: s != nil && didDrop ==> callrecv("core.MetricSampleListener.AddSample", 1) == s.RTTListener && callarg("core.MetricSampleListener.AddSample", 1, 0) == float64(rtt) && callrecv("core.MetricSampleListener.AddSample", 2) == s.InFlightListener && callarg("core.MetricSampleListener.AddSample", 2, 0) == float64(inFlight)
 //@   ensures[C20] without_drop: s != nil && !didDrop ==> callrecv("core.MetricSampleListener.AddSample", 0) == s.RTTListener && callarg("core.MetricSampleListener.AddSample", 0, 0) == float64(rtt) && callrecv("core.MetricSampleListener.AddSample", 1) == s.InFlightListener && callarg("core.MetricSampleListener.AddSample", 1, 0) == float64(inFlight)
 //@   assigns nothing
+
+// A metric registry hands out non-nil sample listeners (assumed of every registry implementation;
+// proved for the two bundled ones and the empty one).
+//@ func core.MetricRegistry.RegisterDistribution params ID, tags
+//@   ensures nonnil: result != nil
+//@   assigns nothing
+//@ func core.MetricRegistry.RegisterTiming params ID, tags
+//@   ensures nonnil: result != nil
+//@   assigns nothing
+//@ func core.MetricRegistry.RegisterCount params ID, tags
+//@   ensures nonnil: result != nil
+//@   assigns nothing
+//@ func core.MetricRegistry.RegisterGauge params ID, supplier, tags
+//@   assigns nothing
+
+//@ func NewCommonMetricSamplerOrNil
+//@   ensures[C20] nil_for_no_registry: (registry == nil || dyntype(registry, "*core.EmptyMetricRegistry")) ==> result == nil
+//@   ensures[C20] listeners: result != nil ==> result.RTTListener != nil && result.DropCounterListener != nil && result.InFlightListener != nil
+//@   assigns nothing
